@@ -13,6 +13,20 @@ import gen_core as G
 from common import hx
 
 
+# tie T for the glue (docs/glue-tie.md): coq/gen/Gen_minerals.v is regenerated from
+# pydrex.utils.extract_vars / apply_gbs and the closures of Mineral.update_orientations by
+# translator/specs_minerals.py; the Inst_minerals*.v lemmas tie it to Model_minerals.v.  Every
+# property whose statements rest on Model_minerals builds these files as obligations, so that an
+# edit of the glue source breaks a proof (or the translator fails closed), not only a differential run.
+GLUE_TIE_FILES = ["gen/Gen_minerals.v", "Inst_core.v", "Inst_minerals.v", "Inst_minerals_rhs1.v",
+                  "Inst_minerals_rhs2.v", "Inst_minerals_rhs3.v"]
+GLUE_TIE_GEN = ("core", "minerals")
+GLUE_TIE_TRUSTED = (
+    "glue tie T: translator/specs_minerals.py (GlueProxy/GArr array semantics: clip, boolean-mask stores, "
+    "non-raising array division, 3x3 matmul; LSODA stand-ins that capture eval_rhs / replay one step; "
+    "oracle stubs for eigvalsh and polar_decompose; apply_gbs traced on copies with write-back at the call site)")
+
+
 class Trace:
     """What one update_orientations call did."""
 
